@@ -160,16 +160,13 @@ def build_spec_graphs(case, G):
     return H, J
 
 
-def call(case, full, budget=None, G=None, seed=True, extra=None):
-    """Run the simulator described by `case`.  Returns the raw return value."""
+def build(case, full, budget=None, G=None, extra=None):
+    """-> (function, args list, kwargs dict) for the simulator described by `case` (fresh argument objects)."""
     import EoN
     from .props import c15 as _c15
     sim = case['sim']
     if G is None:
         G = oracles.build_graph(case['gc'])
-    if seed:
-        random.seed(case['seed'])
-        np.random.seed(case['seed'] % (2 ** 32))
     I0 = [oracles.tolabel(u) for u in case['I0']]
     R0 = [oracles.tolabel(u) for u in case.get('R0') or []]
     tmin, tmax = case['tmin'], tmax_of(case)
@@ -180,16 +177,16 @@ def call(case, full, budget=None, G=None, seed=True, extra=None):
         kw['initial_infecteds'] = list(I0)
         if R0 and sim in HAS_R0:
             kw['initial_recovereds'] = list(R0)
+    f = getattr(EoN, sim)
     if sim in WEIGHTED:
         if case.get('ew'):
             kw['transmission_weight'] = case['ew']
         if case.get('nw'):
             kw['recovery_weight'] = case['nw']
-        return getattr(EoN, sim)(G, case['tau'], case['gamma'], **kw)
+        return f, [G, case['tau'], case['gamma']], kw
     if sim in ('fast_nonMarkov_SIR', 'fast_nonMarkov_SIS'):
         trans, rec = make_rules(case, budget)
         if case['rule'].get('joint'):
-            nodes, adj = oracles.adjacency(case['gc'])
             if sim == 'fast_nonMarkov_SIR':
                 def joint(node, sus_nbrs):
                     return {v: trans(node, v) for v in sus_nbrs}, rec(node)
@@ -197,16 +194,20 @@ def call(case, full, budget=None, G=None, seed=True, extra=None):
                 def joint(node, nbrs):
                     d = rec(node)
                     return {v: trans(node, v, d) for v in nbrs}, d
-            return getattr(EoN, sim)(G, trans_and_rec_time_fxn=joint, **kw)
-        return getattr(EoN, sim)(G, trans_time_fxn=trans, rec_time_fxn=rec, **kw)
+            kw['trans_and_rec_time_fxn'] = joint
+            return f, [G], kw
+        kw['trans_time_fxn'] = trans
+        kw['rec_time_fxn'] = rec
+        return f, [G], kw
     if sim in ('basic_discrete_SIR', 'basic_discrete_SIS', 'percolation_based_discrete_SIR'):
-        return getattr(EoN, sim)(G, case['p'], **kw)
+        return f, [G, case['p']], kw
     if sim == 'discrete_SIR':
-        return EoN.discrete_SIR(G, args=(case['p'],), **kw)
+        kw['args'] = (case['p'],)
+        return f, [G], kw
     if sim == 'Gillespie_simple_contagion':
         H, J = build_spec_graphs(case, G)
         IC = initial_status(case)
-        return EoN.Gillespie_simple_contagion(G, H, J, IC, statuses_of(case), **kw)
+        return f, [G, H, J, IC, statuses_of(case)], kw
     if sim == 'Gillespie_complex_contagion':
         statuses, rules, nxt = CMODELS[case['cmodel']]
         nodes, adj = oracles.adjacency(case['gc'])
@@ -221,9 +222,18 @@ def call(case, full, budget=None, G=None, seed=True, extra=None):
         def get_influence_set(G_, node, status, parameters):
             return _c15.ball(adj, node, hops)
         IC = initial_status(case)
-        return EoN.Gillespie_complex_contagion(G, rate_function, transition_choice, get_influence_set, IC,
-                                               statuses_of(case), parameters=(), **kw)
+        kw['parameters'] = ()
+        return f, [G, rate_function, transition_choice, get_influence_set, IC, statuses_of(case)], kw
     raise ValueError(sim)
+
+
+def call(case, full, budget=None, G=None, seed=True, extra=None):
+    """Run the simulator described by `case`.  Returns the raw return value."""
+    f, args, kw = build(case, full, budget=budget, G=G, extra=extra)
+    if seed:
+        random.seed(case['seed'])
+        np.random.seed(case['seed'] % (2 ** 32))
+    return f(*args, **kw)
 
 
 def as_series(case, out, full):
